@@ -12,6 +12,11 @@ impl Metrics {
         ensures r == old(self).op, final(self).op == old(self).op, final(self).life == old(self).life,
             forall|t: MetricType| #[trigger] final(self).cnt(t) == old(self).cnt(t) + (if t == typ && old(self).op { delta as int } else { 0int }),
     { unimplemented!() }
+    /// Metrics::clear (TRUSTED: MetricsInner::clear stores 0 into every stripe and clears the histogram)
+    #[verifier::external_body]
+    pub fn clear(&mut self)
+        ensures final(self).op == old(self).op, forall|t: MetricType| #[trigger] final(self).cnt(t) == 0, final(self).life@.len() == 0,
+    { unimplemented!() }
     #[verifier::external_body]
     pub fn is_op(&self) -> (r: bool) ensures r == self.op { unimplemented!() }
     #[verifier::external_body]
